@@ -51,7 +51,26 @@ pub fn write_to_dests<K: Kind>(shapes: &[K], with_shx: bool, fin: Finish) -> Res
 /// As `write_to_dests`, with `finalize()` also called after shape i whenever bit i (mod 32) of
 /// `mid_fins` is set (ignored for the consuming `write_shapes` route).
 pub fn write_bytes_fins<K: Kind>(shapes: &[K], with_shx: bool, fin: Finish, mid_fins: u32) -> Result<(Vec<u8>, Option<Vec<u8>>), String> {
-    if mid_fins == 0 || fin == Finish::WriteShapes {
+    write_bytes_hist(shapes, with_shx, fin, mid_fins, 0)
+}
+
+/// A shape of a type other than K with coordinates far outside anything the generators produce; offered
+/// to a writer that already holds K-shapes it must be rejected and leave no trace.
+fn offer_foreign<K: Kind>(w: &mut ShapeWriter<Dest>) -> Result<(), Error> {
+    use shapefile::{MultipointZ, PointZ, PolylineZ};
+    let far = vec![PointZ::new(3e300, -3e300, 3e300, 3e300), PointZ::new(-3e300, 3e300, -3e300, -3e300)];
+    if K::TY == Ty::PolylineZ {
+        w.write_shape(&MultipointZ::new(far))
+    } else {
+        w.write_shape(&PolylineZ::new(far))
+    }
+}
+
+/// As `write_bytes`, with `finalize()` also called after shape i whenever bit i (mod 32) of `mid_fins`
+/// is set, and a shape of another type offered (it must be rejected) before shape i (i >= 1) whenever
+/// bit i (mod 32) of `rejects` is set. Both are ignored for the consuming `write_shapes` route.
+pub fn write_bytes_hist<K: Kind>(shapes: &[K], with_shx: bool, fin: Finish, mid_fins: u32, rejects: u32) -> Result<(Vec<u8>, Option<Vec<u8>>), String> {
+    if (mid_fins == 0 && rejects == 0) || fin == Finish::WriteShapes {
         return write_bytes(shapes, with_shx, fin);
     }
     let shp = Dest::new();
@@ -62,6 +81,11 @@ pub fn write_bytes_fins<K: Kind>(shapes: &[K], with_shx: bool, fin: Finish, mid_
             None => ShapeWriter::new(shp.clone()),
         };
         for (i, s) in shapes.iter().enumerate() {
+            if i >= 1 && rejects & (1 << (i % 32)) != 0 {
+                if offer_foreign::<K>(&mut w).is_ok() {
+                    return Err(format!("a shape of another type was accepted before shape #{}", i));
+                }
+            }
             w.write_shape(s).map_err(|e| format!("write_shape #{}: {}", i, err_str(&e)))?;
             if mid_fins & (1 << (i % 32)) != 0 {
                 w.finalize().map_err(|e| format!("finalize after #{}: {}", i, err_str(&e)))?;
